@@ -49,23 +49,6 @@ static bool flatten_checked(CodeHolder* c, int kf_mode) {
     return false;
   }
 
-  uint64_t end_prev = 0;
-  for (uint32_t i = 0; i < 4; i++) {
-    Section* s = sec(i); uint64_t off = s->_offset;
-    verif_observe(off); verif_observe(s->_virtual_size);
-    V_ASSERT(off >= end_prev, "section starts at or after the end of its predecessor in order");
-    if (pre[i].real) {
-      V_ASSERT((off & (uint64_t(pre[i].al) - 1)) == 0, "offset of a non-empty section respects its alignment");
-      V_ASSERT(off - end_prev < pre[i].al, "no more padding than the alignment requires");
-    }
-    else V_ASSERT(off == end_prev, "empty section placed at the running offset");
-    V_ASSERT(off <= UINT64_MAX - pre[i].real, "section end does not wrap");
-    V_ASSERT(s->real_size() >= pre[i].real, "flatten never shrinks a section");
-    if (i < 3) V_ASSERT(off <= UINT64_MAX - s->real_size() && off + s->real_size() <= sec(i + 1)->_offset, "extended size stays in front of the next section");
-    else V_ASSERT(s->_virtual_size == pre[i].virt, "last section keeps its virtual size");
-    end_prev = off + pre[i].real;
-  }
-  V_ASSERT(end_prev == run, "layout is the tightest one");
   // Known finding C10a: a section that is empty when flatten() runs, followed by a section that needs alignment padding, is
   // handed that padding as its virtual size; code_size() then treats it as non-empty and aligns it, over-reporting the size.
   bool kf = false;
@@ -76,6 +59,34 @@ static bool flatten_checked(CodeHolder* c, int kf_mode) {
 #endif
   }
   else V_ASSUME(kf);
+
+  uint64_t end_prev = 0;
+  for (uint32_t i = 0; i < 4; i++) {
+    Section* s = sec(i); uint64_t off = s->_offset;
+    verif_observe(off); verif_observe(s->_virtual_size);
+    V_ASSERT(off >= end_prev, "section starts at or after the end of its predecessor in order");
+    if (pre[i].real) {
+      V_ASSERT((off & (uint64_t(pre[i].al) - 1)) == 0, "offset of a non-empty section respects its alignment");
+      V_ASSERT(off - end_prev < pre[i].al, "no more padding than the alignment requires");
+    }
+    else {
+      V_ASSERT(off == end_prev, "empty section placed at the running offset");
+      // (the companion of C10a is confined to the inputs where exactly this does not hold)
+      if (kf_mode != 1) V_ASSERT(s->real_size() == 0, "a section that is empty stays empty");
+    }
+    V_ASSERT(off <= UINT64_MAX - pre[i].real, "section end does not wrap");
+    V_ASSERT(s->real_size() >= pre[i].real, "flatten never shrinks a section");
+    // alignment padding is attributed to the section in front of it: the (possibly extended) extent of a section ends at or before
+    // the next section that has content; empty sections in between carry no bytes and may sit inside that padding
+    for (uint32_t k = 0; k < 4; k++) {
+      if (k <= i || (pre[k].real == 0 && s->real_size() != 0 && pre[i].real != 0)) continue;
+      V_ASSERT(off <= UINT64_MAX - s->real_size() && off + s->real_size() <= sec(k)->_offset, "extended size stays in front of the next section with content");
+      break;
+    }
+    if (i == 3) V_ASSERT(s->_virtual_size == pre[i].virt, "last section keeps its virtual size");
+    end_prev = off + pre[i].real;
+  }
+  V_ASSERT(end_prev == run, "layout is the tightest one");
   if (kf_mode >= 0) {
     size_t cs = c->code_size();
     verif_observe(cs);
